@@ -394,6 +394,14 @@ _add('C13', 'DeeprobModel.Props.C13Arb', 'Deeprob.GraphIo', ['isArborescence_com
 # round 5: validation of tables with absent ids / absent weights (Python None), as coded
 _add('C03', 'DeeprobModel.Props.C03Opt', 'Deeprob', ['checkSpnOpt_accept_iff', 'checkSpnOpt_accept_iff_valid', 'checkSpnOpt_flags_accept_iff', 'checkSpnOpt_eq',
      'checkSpnOpt_typeError_iff', 'checkSpnOpt_reject_first', 'checkSpnOpt_eq_of_present', 'checkSpnOpt_ofNet', 'checkSpnOpt_accept_weights'], [])
+# round 5 (translator wave 5, part 2): the explicit-stack loop of build_xpc extracted (children pushed reversed), its own machine and chain
+_add('C04', _O + 'Struct5Xpc', 'Deeprob.Oblig.Struct5X', ['buildXpcStep_as_coded', 'buildXpcLoop_as_coded', 'ids_number', 'fold_buildXpc', 'flatten_as_coded'], ['xpc.build_xpc.loop'])
+_add('C04', 'DeeprobModel.Props.E2EXpc', 'Deeprob.E2EXpc', ['e2e_build_xpc_loop', 'e2e_build_xpc', 'wellTagged_of_partInv', 'wellTagged_needed'], [])
+_add('C04', 'DeeprobModel.Lemmas.PostOrderRLemmas', 'Deeprob.PostOrder', ['walk_subtreeR', 'runR_eq_foldR', 'distinct_ids_neededR'], [])
+# round 5: the backward pass of EM as coded in float32 (floored log-values, absorbed finite parts): wrong grads entries never reach a statistic
+_add('C14', 'DeeprobModel.Props.C14Backward', 'Deeprob.C14B', ['coded_grads_rel', 'backward_coded_eq_derivative_of_pos', 'backward_coded_is_derivative_of_pos',
+     'resp_coded_exact', 'resp_coded_exact_valid', 'leaf_stat_coded_exact', 'sum_stat_coded_exact', 'sum_stat_coded_exact_of_weight', 'forwardC_eq_codedLls',
+     'backwardC_forwardC', 'stat_fin_as_coded', 'coded_grad_wrong_witness', 'raw_stat_zero_weight_witness'], [])
 # round 5: the Gaussian leaf (density as SciPy evaluates it, normalisation, mode, raw moments of every order as integrals)
 _GT = 'Deeprob.GaussTheory'
 _add('C01', 'DeeprobModel.Props.GaussTheory', _GT, ['gauss_exp_logpdf', 'gauss_integral_one', 'gaussPdf_pos'], [])
